@@ -1,4 +1,191 @@
+//! C01: optimisation and shape inference never change a successful result.
+//!
+//! Differential oracle: the un-optimised, no-shape-inference load is the
+//! baseline; every other load configuration must give the same outputs for
+//! every input set on which the baseline succeeds.
+use std::collections::BTreeMap;
+
+use rten::Model;
 use vcommon::*;
-pub fn run(_args: &Args) {
-    unimplemented!()
+
+use crate::common::*;
+
+pub const CONFIGS: [LoadCfg; 5] = [
+    LoadCfg { optimize: true, shape_mode: 0, prepack: false },
+    LoadCfg { optimize: true, shape_mode: 1, prepack: false },
+    LoadCfg { optimize: true, shape_mode: 2, prepack: false },
+    LoadCfg { optimize: false, shape_mode: 1, prepack: false },
+    LoadCfg { optimize: false, shape_mode: 2, prepack: false },
+];
+
+/// Operator type multiset of the loaded (possibly rewritten) graph.
+pub fn op_multiset(model: &Model) -> BTreeMap<String, usize> {
+    let mut m = BTreeMap::new();
+    #[cfg(rten_verif)]
+    {
+        let g = rten::verif::model_graph(model);
+        for (_, node) in g.iter() {
+            if let rten::verif::Node::Operator(op) = node {
+                *m.entry(op.operator().name().to_string()).or_insert(0) += 1;
+            }
+        }
+    }
+    let _ = model;
+    m
+}
+
+fn ops_sig(c: &Case) -> String {
+    let mut ops: Vec<&str> = c.topo.iter().map(|t| t.3.as_str()).collect();
+    ops.sort();
+    ops.dedup();
+    ops.join(",")
+}
+
+pub fn check_case(rep: &mut Report, c: &Case) {
+    for (which, bytes) in [("plain", &c.model), ("value_info", &c.model_vi)] {
+        if bytes.is_empty() {
+            continue;
+        }
+        let base = match load(bytes, LoadCfg::BASE) {
+            Ok(m) => m,
+            Err(e) => {
+                rep.eval();
+                rep.count(if e.starts_with("PANIC") { "base_load_panic" } else { "base_load_error" });
+                continue;
+            }
+        };
+        let base_ops = op_multiset(&base);
+        // Baseline results per input set.
+        let mut base_out: Vec<Option<Vec<TData>>> = Vec::new();
+        for k in 0..c.input_sets.len() {
+            base_out.push(run_simple(&base, &c.input_set(k), &c.outputs, None).ok());
+        }
+        if base_out.iter().all(|b| b.is_none()) {
+            rep.eval();
+            rep.count("base_run_failed_for_all_input_sets");
+            continue;
+        }
+        for cfg in CONFIGS {
+            let sig_head = format!("C01|{}|{}|ops={}|model={}|cfg={}", c.family, c.variant, ops_sig(c), which, cfg.name());
+            let model = match load(bytes, cfg) {
+                Ok(m) => m,
+                Err(e) => {
+                    rep.eval();
+                    if e.starts_with("PANIC") {
+                        rep.violation(
+                            format!("{}|load_panic:{}", sig_head, panic_class(&e)),
+                            format!("loading with {} panicked although the un-optimised load succeeds: {}", cfg.name(), e),
+                            json!({"case": small_case_json(c), "model": which, "cfg": cfg.name()}),
+                        );
+                    } else if cfg.shape_mode == 2 {
+                        // Strict mode is documented to refuse models it cannot fully infer.
+                        rep.count("strict_load_refused");
+                    } else {
+                        rep.violation(
+                            format!("{}|load_error", sig_head),
+                            format!("loading with {} failed although the un-optimised load succeeds: {}", cfg.name(), e),
+                            json!({"case": small_case_json(c), "model": which, "cfg": cfg.name()}),
+                        );
+                    }
+                    continue;
+                }
+            };
+            let rewritten = op_multiset(&model) != base_ops;
+            #[cfg(rten_verif)]
+            if std::env::var_os("VERIF_DUMP").is_some() {
+                let g = rten::verif::model_graph(&model);
+                eprintln!("--- graph under {}", cfg.name());
+                for (id, node) in g.iter() {
+                    match node {
+                        rten::verif::Node::Operator(op) => eprintln!(
+                            "  op {:?} {} {:?} in={:?} out={:?}",
+                            id,
+                            op.operator().name(),
+                            op.operator(),
+                            op.input_ids().iter().map(|i| i.map(|i| g.node_name(i))).collect::<Vec<_>>(),
+                            op.output_ids().iter().map(|i| i.map(|i| g.node_name(i))).collect::<Vec<_>>()
+                        ),
+                        rten::verif::Node::Constant(c) => eprintln!("  const {:?} {:?} shape {:?}", id, c.name(), c.shape()),
+                        rten::verif::Node::Value(v) => eprintln!("  value {:?} {:?} shape {:?}", id, g.node_name(id), v.shape()),
+                    }
+                }
+            }
+            for k in 0..c.input_sets.len() {
+                let Some(expected) = &base_out[k] else { continue };
+                rep.eval();
+                rep.count(&format!("runs_{}", cfg.name()));
+                if rewritten {
+                    rep.nontrivial(&(&c.id, which, cfg, k));
+                    rep.count("runs_on_rewritten_graph");
+                }
+                match run_simple(&model, &c.input_set(k), &c.outputs, None) {
+                    Err(e) => {
+                        let kind = if e.starts_with("PANIC") { format!("run_panic:{}", panic_class(&e)) } else { "run_error".to_string() };
+                        rep.violation(
+                            format!("{}|{}", sig_head, kind),
+                            format!("run with {} failed although the un-optimised model succeeds on the same input: {}", cfg.name(), e),
+                            json!({"case": small_case_json(c), "model": which, "cfg": cfg.name(), "input_set": k}),
+                        );
+                    }
+                    Ok(got) => {
+                        for (g, e) in got.iter().zip(expected) {
+                            if let Some(diff) = compare(g, e, Tol::for_class("model")) {
+                                rep.violation(
+                                    format!("{}|{}", sig_head, mismatch_kind(&diff)),
+                                    format!(
+                                        "{} [{}] output {} under {} differs from the un-optimised result: {} (graph rewritten: {})",
+                                        c.family, c.variant, g.name, cfg.name(), diff, rewritten
+                                    ),
+                                    json!({"case": small_case_json(c), "model": which, "cfg": cfg.name(), "input_set": k, "output": g.name,
+                                           "got": g.to_json(), "baseline": e.to_json(),
+                                           "numpy": c.expected.get(k).and_then(|m| m.get(&g.name)).and_then(|t| t.as_ref()).map(|t| t.to_json())}),
+                                );
+                                break;
+                            }
+                        }
+                    }
+                }
+            }
+            if rewritten && rep.wants_sample() {
+                let after = op_multiset(&model);
+                rep.sample(|| json!({"case": c.id, "family": c.family, "variant": c.variant, "cfg": cfg.name(), "ops_before": base_ops, "ops_after": after}));
+            }
+        }
+    }
+}
+
+pub fn run(args: &Args) {
+    let mut rep = Report::new(
+        "C01",
+        "modelcheck c01",
+        args,
+        "ONNX models from three generators (fusion-pattern families with near-miss grids, shape-arithmetic chains, random DAGs; with and without value_info; several bindings of symbolic dims incl. 0/1 and NaN/inf values) loaded un-optimised without shape inference as baseline and under {optimise on/off} x {shape inference off/on/strict}; outputs compared (integers exact, floats 1e-4+1e-3 rel, NaN positions equal). non-trivial = the configuration's operator multiset differs from the baseline's (observed through the graph hook), i.e. the optimiser really rewrote the graph; distinct by (case, model variant, configuration, input set)",
+    );
+    let cases: Vec<Case> = if let Some(p) = &args.replay {
+        let w: Json = serde_json::from_str(&std::fs::read_to_string(p).unwrap()).unwrap();
+        let w = if w.get("witness").is_some() { w["witness"].clone() } else { w };
+        let w = if w.get("witness").is_some() { w["witness"].clone() } else { w };
+        vec![Case::from_json(w["case"].clone())]
+    } else {
+        let dir = pack_dir(args);
+        let mut v = Vec::new();
+        for fam in args.get("families").unwrap_or("patterns,dag").split(',') {
+            if std::path::Path::new(&format!("{}/{}.jsonl", dir, fam)).exists() {
+                v.extend(read_pack(&dir, fam, args.shard, args.shards));
+            }
+        }
+        v
+    };
+    for c in &cases {
+        check_case(&mut rep, c);
+    }
+    for c in pinned_cases(args) {
+        check_case(&mut rep, &c);
+        rep.count("pinned_witnesses_run");
+    }
+    if args.replay.is_some() {
+        rep.nontrivial(&0u8);
+        rep.nontrivial(&1u8);
+    }
+    rep.finish();
 }
